@@ -3,7 +3,7 @@ namespace Yaclib.Pool
 open Yaclib.Extracted.PoolConsts
 
 set_option maxHeartbeats 2000000 in
-theorem invB_step_1 {w s l s'} (ha : InvA w s) (hi : InvB w s) (hs : Step s l s') (hg : grpOf l = 1) : InvB w s' := by
+theorem invB_step_1 {w s l s'} (_ha : InvA w s) (hi : InvB w s) (hs : Step s l s') (hg : grpOf l = 1) : InvB w s' := by
   cases hs with
   | wLock i pc h hpc hl => wfacts h; cases hi; rcases hpc with hpc | hpc <;> subst hpc <;> invB_close
   | wRelock i h hl => wfacts h; cases hi; invB_close
